@@ -184,6 +184,12 @@ def boundary_trees(tier):
         out.append({"name": "content_%d_deep" % n,
                     "tree": {"t": "iq", "a": [], "c": [{"t": "list", "a": [], "c": [leaf("item", n), leaf("item", 3)]},
                                                       {"t": "tail", "a": [], "c": {"hex": "00"}}]}})
+    # every bit of the long length form is used by some size: 8 MiB and above set the highest bit a frame-sized length can have
+    for n in ([0x800000, 0xA5A5A5] if tier == "quick" else [0x200000, 0x400000, 0x800000, 0x800001, 0xA5A5A5, 0x5A5A5A, 0xFFFF00]):
+        out.append({"name": "content_%d_top_pat2" % n, "tree": leaf("media", n, 2)})
+        if tier != "quick" or n == 0x800000:
+            out.append({"name": "content_%d_nested_then_sibling" % n,
+                        "tree": {"t": "message", "a": [["id", "abc"]], "c": [leaf("enc", n), {"t": "after", "a": [["k", "v"]], "c": None}]}})
     for n in [255, 256, 257, 65535, 65536, 0x100000, 0x100001]:
         out.append({"name": "attr_value_%d" % n,
                     "tree": {"t": "x", "a": [["k", {"rep": "ab", "n": n}], ["z", "1"]], "c": [{"t": "after", "a": [], "c": None}]}})
